@@ -22,6 +22,9 @@ type extSpec struct {
 // c11DocTrigger is the document-level form of the statement's side condition: true when the document contains a
 // character (sequence) the extension's syntax needs, i.e. when the property says nothing about it.
 func c11DocTrigger(ext string, doc []byte) bool {
+	if strings.HasPrefix(ext, "typo.") {
+		ext = "typographer"
+	}
 	switch strings.TrimSuffix(ext, "-opt") {
 	case "strike":
 		return bytes.IndexByte(doc, '~') >= 0
@@ -94,6 +97,9 @@ var c11OptExts = []extSpec{
 		return strings.ContainsAny(t, ":@") || strings.Contains(strings.ToLower(t), "www.") || t == "w" || t == "."
 	}, ""},
 	{"typographer-opt", hasAny("'\"-.<>"), ""},
+	{"typo.all.nil", hasAny("'\"-.<>"), ""},
+	{"typo.all.empty", hasAny("'\"-.<>"), ""},
+	{"typo.all.str", hasAny("'\"-.<>"), ""},
 }
 
 var c11Alpha = core.Union(core.ABlock, core.AInline, core.AExt, []string{"'", ".", "\t", "^", "{", "}", "go/x", "wwx"})
